@@ -141,15 +141,15 @@ func dhcpFrame(srcMAC mac6, tags []uint16, outerAD bool, bootp []byte) []byte {
 
 // dhcpReply is what the harness reads out of a transmitted reply (offsets of a 20-byte IP header).
 type dhcpReply struct {
-	ok                       bool
-	srcMAC                   mac6
-	ipSrc, yiaddr, siaddr    ip4
-	msgType                  byte
-	serverID, mask, router   []byte
-	dns                      []byte
-	lease                    []byte
-	chaddr                   mac6
-	op                       byte
+	ok                     bool
+	srcMAC                 mac6
+	ipSrc, yiaddr, siaddr  ip4
+	msgType                byte
+	serverID, mask, router []byte
+	dns                    []byte
+	lease                  []byte
+	chaddr                 mac6
+	op                     byte
 }
 
 func parseDHCPReply(f []byte) dhcpReply {
